@@ -96,6 +96,10 @@ func (m *ConnackMessage) Decode(src []byte) (int, error) {
 		return total, err
 	}
 
+	if m.remlen < 2 {
+		return total, fmt.Errorf("connack/Decode: Insufficient remaining length. Expecting %d, got %d", 2, m.remlen)
+	}
+
 	b := src[total]
 
 	if b&254 != 0 {
